@@ -219,7 +219,7 @@ def child_case(st, case):
                 do_flex(ffi, rnd, rep, top, tag, T, aggs, text, seed)
             else:
                 mode = rnd.choice(['single', 'single', 'dictmode', 'array', 'invalid', 'empty',
-                                   'primarray'])
+                                   'primarray', 'openarray'])
                 do_fixed(ffi, rnd, rep, top, tag, T, aggs, text, seed, mode)
         except Bad as e:
             rep.bad('harness-model', '%s :: %s' % (e, text[:300]), seed)
@@ -285,6 +285,46 @@ def do_fixed(ffi, rnd, rep, top, tag, T, aggs, text, seed, mode):
             if not (A[0] == 'ok' and B[0] == 'ok' and A == B and kind == 'toomany'):
                 rep.bad('invalid-initializer-differs', '%s invalid init %s: new -> %r, assignment '
                         '-> %r :: %s' % (tag, irepr(init), A[:2], B[:2], text[:300]), seed)
+        return
+    if mode == 'openarray':
+        # open-ended array created from an initializer: items that the
+        # initializer only partly covers must still be zero elsewhere
+        kind = rnd.choice(['agg', 'agg', 'int3', 'char8'])
+        m = rnd.randint(1, 4)
+        if kind == 'agg':
+            ct_open = ffi.getctype(ffi.typeof(tag), '[]')
+            inits = [make_agg_init(ffi, rnd, top, aggs, 0, True) for _ in range(m)]
+            isz = size
+        elif kind == 'int3':
+            ct_open, isz = 'int[][3]', 12
+            inits = [[rnd.randint(1, 9) for _ in range(rnd.randint(0, 3))] for _ in range(m)]
+        else:
+            ct_open, isz = 'char[][8]', 8
+            inits = [bytes(rnd.randrange(1, 256) for _ in range(rnd.randint(0, 7)))
+                     for _ in range(m)]
+        A = run_path(lambda: bytes(ffi.buffer(ffi.new(ct_open, inits))))
+
+        def pathB():
+            arr = ffi.new(ct_open, m)
+            for i, it in enumerate(inits):
+                arr[i] = it
+            return bytes(ffi.buffer(arr))
+        B = run_path(pathB)
+        rep.case((text if kind == 'agg' else kind, 'openarray', irepr(inits)),
+                 sample={'type': str(ct_open), 'inits': irepr(inits)})
+        rep.stat('mode_openarray_' + kind)
+        if A != B:
+            rep.bad('new-vs-assign:open-array', '%s init %s: new -> %r, length-only new + item '
+                    'assignment -> %r :: %s' % (ct_open, irepr(inits), A, B,
+                                                text[:300] if kind == 'agg' else ''), seed)
+        if A[0] == 'ok' and kind == 'agg':
+            mem = bytearray(isz * m)
+            tgt = ffi.from_buffer(ffi.getctype(ffi.typeof(tag), '[]'), mem)
+            for i, it in enumerate(inits):
+                leaf_assign(ffi, tgt[i], T, it, aggs)
+            if bytes(mem) != A[1]:
+                rep.bad('new-vs-leafwise:open-array', '%s init %s: new -> %s, leaf-wise into zero '
+                        'memory -> %s' % (ct_open, irepr(inits), A[1].hex(), bytes(mem).hex()), seed)
         return
     if mode == 'array':
         n = rnd.randint(1, 4)
